@@ -46,6 +46,7 @@ class World(object):
         self.net.blocked = self.blocked
         self.net.poller_kind = cfg.get('poller', 'sim')
         self.net.fd_reuse = bool(cfg.get('fd_reuse', False))
+        self.net.sync_fail_p = float(cfg.get('sync_connect_fail', 0.0))
         self.net_rng = random.Random(seed * 7919 + 17)
         self.hosts = []
         self.groups = None           # host idx -> partition group, or None
